@@ -138,6 +138,8 @@ func peerClass(ns []flatNode, from, peer int) string {
 		return "nokey"
 	case peer == nodeh.Outsider:
 		return "outsider"
+	case peer == nodeh.PeerForger:
+		return "forger"
 	}
 	member := false
 	for _, n := range ns {
@@ -369,8 +371,21 @@ func randomScenario(rng *rand.Rand, allowAbsent bool) input {
 			wire = rng.Intn(nodeh.NServers)
 		}
 		classes["sender-"+senderClass(from)] = true
-		msgs = append(msgs, nodeh.Msg{Inst: inst, From: from, OtherTree: rng.Intn(8) == 0, Peer: peer, Wire: wire,
-			Type: typ, Payload: int64(i + 1), Route: pickRoute(rng, ns, me, peer)})
+		route := pickRoute(rng, ns, me, peer)
+		decl := nodeh.DeclConsistent
+		if peer != nodeh.PeerNone && rng.Intn(4) == 0 {
+			// the envelope identity declares somebody else's ID (or a zero / random one)
+			decl = []int{1 + rng.Intn(nodeh.NServers), nodeh.DeclZero, nodeh.DeclRandom}[rng.Intn(3)]
+			if from >= 0 && rng.Intn(2) == 0 {
+				decl = ns[from].srv + 1
+			}
+			if peer >= 0 && decl == peer+1 {
+				decl = nodeh.DeclZero
+			}
+			route = "process"
+		}
+		msgs = append(msgs, nodeh.Msg{Inst: inst, From: from, OtherTree: rng.Intn(8) == 0, Peer: peer, Decl: decl, Wire: wire,
+			Type: typ, Payload: int64(i + 1), Route: route})
 		msgs = append(msgs, fence(inst, f))
 		f++
 	}
@@ -405,6 +420,8 @@ func generate(rng *rand.Rand, tier string) []interface{} {
 		}
 		ins = append(ins, tcpTable(rng, 4)...)
 		ins = append(ins, lateTable(rng, 3)...)
+		ins = append(ins, idTable(rng, false)...)
+		ins = append(ins, idTable(rng, true)...)
 		return ins
 	}
 	budget := 400
@@ -422,6 +439,10 @@ func generate(rng *rand.Rand, tier string) []interface{} {
 	ins = append(ins, tcpTable(rng, 12)...)
 	for i := 0; i < 4; i++ {
 		ins = append(ins, lateTable(rng, 6)...)
+	}
+	ins = append(ins, idTable(rng, false)...)
+	for i := 0; i < 3; i++ {
+		ins = append(ins, idTable(rng, true)...)
 	}
 	return ins
 }
@@ -455,6 +476,60 @@ func tcpTable(rng *rand.Rand, absent int) []interface{} {
 					in.Net = "tcp"
 					in.Detail += "/tcp"
 					ins = append(ins, in)
+				}
+			}
+		}
+	}
+	return ins
+}
+
+// idTable: envelope / handshake identities whose deprecated, self-declared ID field is forged
+// (the victim's ID, the receiver's ID, zero, random) while the KEY is the peer's own: another
+// member's key, the outsider's, a fresh attacker key, no key at all -- and also the legitimate
+// owner's key with a wrong ID, which must still be accepted.  In-process through
+// Overlay.Process, and over a real TCP connection of a router that presents the forged
+// identity in its handshake.
+func idTable(rng *rand.Rand, tcp bool) []interface{} {
+	var ins []interface{}
+	for _, tr := range []nodeh.TreeSpec{nd(0, leaf(1), leaf(2)), nd(0, nd(1, leaf(2)))} {
+		var ns []flatNode
+		flatten(&tr, -1, &ns)
+		for me := range ns {
+			for _, typ := range []int{nodeh.TH1, nodeh.THA, nodeh.TC1, nodeh.TCA} {
+				for from := range ns {
+					victim := ns[from].srv
+					for _, peer := range []int{0, 1, 2, 3, nodeh.Outsider, nodeh.PeerForger, nodeh.PeerNoKey} {
+						for _, decl := range []int{victim + 1, ns[me].srv + 1, nodeh.DeclZero, nodeh.DeclRandom} {
+							if peer >= 0 && peer < nodeh.NServers && decl == peer+1 {
+								continue // that is the consistent identity
+							}
+							if tcp && (peer == nodeh.PeerNoKey || peer == ns[me].srv || rng.Intn(3) != 0) {
+								continue
+							}
+							in := subject(rng, tr, ns, me, typ, from, peer)
+							for i := range in.Msgs {
+								m := &in.Msgs[i]
+								if m.Type == nodeh.TFence || m.Payload != 1 {
+									continue // only the subject message carries the forged identity
+								}
+								m.Decl = decl
+								m.Route = "process"
+								if tcp {
+									m.Route = "conn"
+								}
+							}
+							declName := map[bool]string{true: "victim", false: "other"}[decl == victim+1]
+							if decl < 0 {
+								declName = map[int]string{nodeh.DeclZero: "zero", nodeh.DeclRandom: "random"}[decl]
+							}
+							in.Detail = fmt.Sprintf("peer-%s/id-%s", peerClass(ns, from, peer), declName)
+							if tcp {
+								in.Net = "tcp"
+								in.Detail += "/tcp-handshake"
+							}
+							ins = append(ins, in)
+						}
+					}
 				}
 			}
 		}
@@ -564,6 +639,7 @@ func main() {
 		Rule: "every (tree shape <= 4 nodes incl. repeated servers) x receiving node x registration kind (handler/channel x single/aggregated) x " +
 			"claimed sender (each node, absent, random id, node of another tree, non-member) x envelope peer (each member, non-member, outsider, none, key-less), " +
 			"a seeded part of the same table for 5-6 node trees, seeded multi-message scenarios, the sender x peer table of a 3-node tree on servers with real TCP sockets, " +
+			"the table of forged declared-ID fields (envelope identity = own key + the victim's / the receiver's / a zero / a random ID; in-process and in the TCP handshake of an attacker's router), " +
 			"and the same table with a receiver that learns the tree only through the message (parked, tree requested from the envelope's peer, dispatched on arrival); " +
 			"routes: Overlay.Process, Overlay.TransmitMsg, a router connection of the (byzantine) peer's server (in-memory transport or TCP); " +
 			"sender-less messages (they kill the pinned code's process) are a seeded sample; distinct = distinct Coq case term",
